@@ -15,6 +15,10 @@ import (
 	"gitlab.com/yawning/obfs4.git/internal/verifkit/wire"
 )
 
+// WriteWatchdog bounds Endpoint.Write (the wire never blocks a write; the only
+// legitimate waiting is the IAT sleep of at most 10 ms per segment).
+var WriteWatchdog = 20 * time.Second
+
 // Result of a guarded call.
 type Result struct {
 	Err      error
@@ -220,7 +224,7 @@ func (ep *Endpoint) Write(b []byte) (Result, int, int) {
 	ep.mu.Unlock()
 	ep.Net.Bracket(ep.Side, id)
 	var n int
-	r := Call(60*time.Second, func() error {
+	r := Call(WriteWatchdog, func() error {
 		var err error
 		n, err = conn.Write(b)
 		return err
